@@ -289,7 +289,7 @@ def history(binpath, seed, sh):
     # failing variants of `bad`: an inner link removed (fails inside the sub-layout), everything removed, a corrupted file
     inner = sorted(k for k in bf_full if "/" in k and k.endswith(".link"))
     fails = []
-    for i in range(24):
+    for i in range(144):                      # well beyond any fixed nesting / retry bound a counter could hit
         f = dict(bf_full)
         if i % 3 == 0 and inner:
             del f[inner[i % len(inner)]]
@@ -437,7 +437,7 @@ def sublayout_order(binpath, seed, sh, copies):
         d = judge_group(cases[g[0]], [obs[i] for i in g], res)
         if d is not None:
             res.note(["sublayout_order", cases[g[0]]["layout"][:80]], True,
-                     cls=["kind:sublayout_inspections_share_workdir", "kind:inspections_share_workdir", "inspection_order:accept", "inspection_order:reject", f"outcomes:{len(d)}",
+                     cls=["kind:sublayout_inspections_share_workdir", "kind:inspections_share_workdir", "kind:key_ids_sharing_their_short_form", "inspection_order:accept", "inspection_order:reject", f"outcomes:{len(d)}",
                           "sublayout_order:" + ("accept" if any(k[0] == "accept" for k in d) else "reject")], n=len(g))
     return res
 
@@ -529,9 +529,43 @@ def inspection_order(binpath, seed, sh, copies):
     return res
 
 
+def short_id_collision(binpath, seed, sh, reps):
+    """the layout's key table holds two different keys whose identifiers share their first eight hex digits (the part a
+    link's file name carries); both are functionaries of a threshold-1 step, one of them files a link.  The same text,
+    parsed and verified again and again (fresh maps each time): one verdict"""
+    rng = common.rng_for(seed, PROP, 6500 + sh)
+    W = scen.World(binpath)
+    res = common.Result()
+    ka, kb = rng.sample(["ed2", "ed3", "ed5", "edp1", "ed6"], 2)
+    found = scen.colliding_descriptions(W, ka, kb)
+    if found is None:
+        res.inconclusive.append("no identifier-prefix collision found in the search budget")
+        return res
+    pub_a, id_a, pub_b, id_b = found
+    cases = []
+    for signer, sid in ((ka, id_a), (kb, id_b)):
+        steps = [scen.mk_step("build", 1, [id_a, id_b], [], [["ALLOW", "*"]], [["ALLOW", "*"]])]
+        layout = scen.mk_layout(W, [], steps, [], keys={id_a: pub_a, id_b: pub_b})
+        wires = scen.sign_all(binpath, [(layout, ["ed0"], "new"), (pipeline.leaf_link("build", 0), [signer], "new")], nproc=1)
+        l1 = copy.deepcopy(wires[1])
+        l1["signatures"][0]["keyid"] = sid
+        files = {f"build.{sid[:8]}.link": scen.dumps(l1)}
+        cases.append(scen.verify_case(wires[0], [[W.kid("ed0"), W.pub("ed0")]], files, reps=reps, probe_ids=[id_a, id_b],
+                                      meta={"kind": "key_ids_sharing_their_short_form", "nlinks": 2}))
+    obs = common.run_batch(binpath, cases)
+    for c, o in zip(cases, obs):
+        d = judge_group(c, [o], res)
+        if d is not None:
+            res.note([c["meta"]["kind"], c["layout"][:80]], True,
+                     cls=[f"kind:{c['meta']['kind']}", f"outcomes:{len(d)}", "accept_seen" if any(k[0] == "accept" for k in d) else "reject_only"], n=len(o["runs"]))
+    return res
+
+
 def main(ctx):
     res = common.Result()
     for p in common.pmap(history, [(ctx.bin, ctx.seed, s) for s in range(4 if not ctx.thorough else common.NPROC)]):
+        res.merge(p)
+    for p in common.pmap(short_id_collision, [(ctx.bin, ctx.seed, s, 64 if not ctx.thorough else 512) for s in range(2 if not ctx.thorough else 8)]):
         res.merge(p)
     for p in common.pmap(inspection_order, [(ctx.bin, ctx.seed, s, 12 if not ctx.thorough else 48) for s in range(2 if not ctx.thorough else common.NPROC)]):
         res.merge(p)
